@@ -376,6 +376,11 @@ func runScenario(c *common, lg *tracelog.Log, rng *rand.Rand, idx int, sc *scena
 	a.Others["readme.txt"] = []byte("bystander")
 	a.Others["other/deep/file.bin"] = []byte{9, 9, 9}
 	a.Others[bname+".stray.par2"] = []byte{} // matches <base>.*.par2 but holds no packet of the set
+	for i, n := range sc.names {             // siblings with derived names (temporary-file / backup conventions): Repair must leave them alone
+		if i < 4 {
+			a.Others[n+[]string{".tmp", "~", ".bak", ".new"}[i]] = []byte("sibling of " + n)
+		}
+	}
 	{
 		// what Create did: it may only create <base>.par2 and <base>.volNN+MM.par2
 		unexpected := []string{}
